@@ -155,6 +155,10 @@ def _load_from_file_system(hashed_grammar, path, p_time, cache_path=None):
     else:
         if not isinstance(module_cache_item, _NodeCacheItem):
             return None
+        if p_time > module_cache_item.change_time:
+            # The pickle file itself is newer than the source file, but it was
+            # created from an older version of it.
+            return None
         _set_cache_item(hashed_grammar, path, module_cache_item)
         LOG.debug('pickle loaded: %s', path)
         return module_cache_item.node
